@@ -37,8 +37,8 @@ constexpr auto round_check(T const x) noexcept -> T
                   // +/- infinite
             !is_finite(x) ? x
                           :
-                          // signed-zero cases
-            etl::numeric_limits<T>::epsilon() > abs(x) ? x
+                          // signed-zero cases, values without a fractional part
+            (x == T(0) || abs(x) >= T(1) / etl::numeric_limits<T>::epsilon()) ? x
                                                        :
                                                        // else
             sgn(x) * round_int(abs(x))
